@@ -1418,10 +1418,17 @@ impl<Target: Composer> AdditionalBuilder<Target> {
             &mut OptBuilder<'_, Target>,
         ) -> Result<(), Target::AppendError>,
     {
-        self.authority.answer.builder.push(
+        // The closure may change the rcode in the message header. If the
+        // record cannot be added, the header has to go back to what it was.
+        let rcode = self.header().rcode();
+        let res = self.authority.answer.builder.push(
             |target| OptBuilder::new(target)?.build(op),
             |counts| counts.inc_arcount(),
-        )
+        );
+        if res.is_err() {
+            self.header_mut().set_rcode(rcode);
+        }
+        res
     }
 }
 
